@@ -21,7 +21,8 @@ def concretise(scheds, pid, tier, seed, roles=("server", "client")):
             if nrt > 2:      # each costs the library's 1 s writeWait
                 continue
         out.append(dict(id="%s-%s-s%d" % (pid, tier[0], i), role=rnd.choice(roles), wbuf=rnd.choice([16, 64, 200]),
-                        progs=s["progs"], sched=s["sched"], faultAt=s["faultAt"], free=False, seed=rnd.randrange(1, 1 << 30)))
+                        progs=s["progs"], sched=s["sched"], faultAt=s["faultAt"], free=False, seed=rnd.randrange(1, 1 << 30),
+                        pool=rnd.random() < 0.5))
     return out
 
 
@@ -36,6 +37,7 @@ def free_programs(scheds, pid, tier, seed, count, block=False):
                         blockms=(rnd.choice([0, 0, 45]) if block else 0)))
         # large WriteMessage payloads: several frames per call (client) / the direct-write path (server)
         out[-1]["scale"] = rnd.choice([1, 1, 3 * out[-1]["wbuf"] + 30])
+        out[-1]["pool"] = rnd.random() < 0.5
     return out
 
 
